@@ -27,12 +27,23 @@
 (*                                 is made when the trigger fires, the claim at the task's     *)
 (*                                 first step is made WITHOUT kill_me: of two same-instant      *)
 (*                                 occurrences the later one kills the earlier one             *)
+(*   "call-couples-cancel"         a blocking pyscript-to-pyscript service call ties caller    *)
+(*                                 and callee together (the handler awaits the callee's task   *)
+(*                                 inside the caller's task): cancelling the blocked caller    *)
+(*                                 cancels the callee instead (the caller follows when the     *)
+(*                                 callee is done), and a cancelled callee cancels its caller  *)
+(*   "method-cb-per-lookup"        a bound method of a pyscript class instance (MethFn) is a   *)
+(*                                 new callback function at every attribute lookup: adding it  *)
+(*                                 again adds a second entry (both run, each with its own      *)
+(*                                 arguments), remove_done_callback never finds it              *)
 EXTENDS Naturals, Sequences, FiniteSets, TLC
 
 CONSTANTS Task,      \* tasks started by pyscript (trigger occurrence, service call, task.create)
           Foreign,   \* tasks not started by pyscript (loader preamble, Jupyter cell)
           Name, Ctx, \* unique names are keyed by (global context, name)
           Fn,        \* done-callback functions
+          MethFn,    \* those of them that are bound methods of pyscript class instances (only the deviation
+                     \* "method-cb-per-lookup" treats them differently)
           MaxArg,    \* callback argument versions 1..MaxArg ("later add overwrites args")
           MaxOps,    \* operations per task
           MaxEnv,    \* hass-side cancellations (Function.reaper_cancel: shutdown, reload, trigger stop)
@@ -42,9 +53,10 @@ CONSTANTS Task,      \* tasks started by pyscript (trigger occurrence, service c
           Flags,     \* deviation flags of this run
           None
 
-AllOps   == {"unique", "sleep", "raise", "create", "cancel", "addcb", "rmcb", "wait", "exec"}
+AllOps   == {"unique", "sleep", "raise", "create", "cancel", "addcb", "rmcb", "wait", "exec", "call"}
 AllFlags == {"foreign-killme-cancelled", "cb-raise-breaks", "cancel-in-cb-skips-cleanup",
-             "cancel-unstarted-typeerror", "svc-addcb-keyerror", "deco-killme-claims"}
+             "cancel-unstarted-typeerror", "svc-addcb-keyerror", "deco-killme-claims", "call-couples-cancel",
+             "method-cb-per-lookup"}
 All == Task \cup Foreign
 Key == Ctx \X Name
 DecosAll == [n : Name, km : BOOLEAN]
@@ -54,7 +66,8 @@ NoDeco == [n |-> None, km |-> FALSE]       \* a record, so that decorations are 
 VARIABLES
   flags,    \* deviation flags (never change)
   cur,      \* task holding the event loop, or None
-  st,       \* absent | new | run | ready | parked | cparked | waiting | done
+  st,       \* absent | new | run | ready | parked | cparked | waiting | calling | done
+            \* (waiting: task.wait({waitOn}); calling: blocked in a blocking service call, callee = waitOn)
   phase,    \* body | exit | cb       (run_coro: awaiting the coroutine / in finally / in a done-callback)
   nops, nenv,
   ctxOf, kind, deco,
@@ -67,11 +80,13 @@ VARIABLES
   outcome,  \* none | ok | raised | cancelled | refused
   waitOn,
   \* history, for the invariants only
-  lastClaim, claimed, kmBad, crossKill, apiErr, exitCancelled
+  lastClaim, claimed, kmBad, crossKill, apiErr, exitCancelled,
+  stale     \* [All -> [Fn -> Seq(1..MaxArg)]]  only under "method-cb-per-lookup": argument versions of the
+            \* earlier entries of a method that was added again (they run before the latest one)
 
 core == <<flags, cur, st, phase, nops, nenv, ctxOf, kind, deco, pend, rq, rbusy, n2t, t2n, ours, cbKeys,
           ctxKeys, cbs, ran, ranArg, cbcur, cbstop, outcome, waitOn>>
-hist == <<lastClaim, claimed, kmBad, crossKill, apiErr, exitCancelled>>
+hist == <<lastClaim, claimed, kmBad, crossKill, apiErr, exitCancelled, stale>>
 vars == <<core, hist>>
 
 Has(f) == f \in flags
@@ -92,6 +107,7 @@ InitWith(fl) ==
   /\ outcome = [t \in All |-> "none"] /\ waitOn = [t \in All |-> None]
   /\ lastClaim = [k \in Key |-> None] /\ claimed = [t \in All |-> {}]
   /\ kmBad = FALSE /\ crossKill = FALSE /\ apiErr = {} /\ exitCancelled = [t \in All |-> FALSE]
+  /\ stale = [t \in All |-> [f \in Fn |-> <<>>]]
 Init == InitWith(Flags)
 
 Done(t)    == st[t] = "done"
@@ -174,16 +190,20 @@ Start(t) ==
                   \* the rule: a kill_me caller never cancels anybody
                   /\ kmBad' = (kmBad \/ (d.km /\ Other(t, k)))
   /\ UNCHANGED <<flags, phase, nops, nenv, ctxOf, kind, deco, pend, rbusy, cbs, ran, ranArg, cbcur, cbstop,
-                 waitOn, apiErr, exitCancelled>>
+                 waitOn, apiErr, exitCancelled, stale>>
 
 Wake(t) ==        \* the sleep of a parked task expires (any relative timing, incl. same instant)
   /\ cur = None /\ st[t] = "parked" /\ st' = [st EXCEPT ![t] = "ready"]
   /\ UNCHANGED <<flags, cur, phase, nops, nenv, ctxOf, kind, deco, pend, rq, rbusy, n2t, t2n, ours, cbKeys,
                  ctxKeys, cbs, ran, ranArg, cbcur, cbstop, outcome, waitOn, hist>>
 
-WaitWake(t) ==    \* task.wait: the awaited task is done
-  /\ cur = None /\ st[t] = "waiting" /\ Done(waitOn[t]) /\ st' = [st EXCEPT ![t] = "ready"]
-  /\ UNCHANGED <<flags, cur, phase, nops, nenv, ctxOf, kind, deco, pend, rq, rbusy, n2t, t2n, ours, cbKeys,
+\* under "call-couples-cancel" the CancelledError of a cancelled callee is raised in its blocked caller
+CalleeKills(t) == /\ st[t] = "calling" /\ Has("call-couples-cancel")
+                  /\ Done(waitOn[t]) /\ outcome[waitOn[t]] = "cancelled"
+WaitWake(t) ==    \* task.wait: the awaited task is done / blocking service call: the called run is done
+  /\ cur = None /\ st[t] \in {"waiting", "calling"} /\ Done(waitOn[t]) /\ st' = [st EXCEPT ![t] = "ready"]
+  /\ pend' = IF CalleeKills(t) THEN [pend EXCEPT ![t] = TRUE] ELSE pend
+  /\ UNCHANGED <<flags, cur, phase, nops, nenv, ctxOf, kind, deco, rq, rbusy, n2t, t2n, ours, cbKeys,
                  ctxKeys, cbs, ran, ranArg, cbcur, cbstop, outcome, waitOn, hist>>
 
 Continue(t) ==    \* a woken task gets the loop (in its body or inside a done-callback)
@@ -212,7 +232,7 @@ DeliverCancel(t) ==
      ELSE /\ st' = [st EXCEPT ![t] = "run"] /\ cur' = t /\ phase' = [phase EXCEPT ![t] = "exit"]
           /\ UNCHANGED <<cbcur, cbstop, exitCancelled>>
   /\ UNCHANGED <<flags, nops, nenv, ctxOf, kind, deco, rq, rbusy, n2t, t2n, ours, cbKeys, ctxKeys, cbs, ran,
-                 ranArg, waitOn, lastClaim, claimed, kmBad, crossKill, apiErr>>
+                 ranArg, waitOn, lastClaim, claimed, kmBad, crossKill, apiErr, stale>>
 
 \* ------------------------------------------------------------------ operations of the running task
 OpUnique(t, n, km) ==
@@ -232,7 +252,7 @@ OpUnique(t, n, km) ==
                         /\ crossKill' = (crossKill \/ \E i \in 1..Len(enq) : ctxOf[enq[i]] # ctxOf[t])
                         /\ UNCHANGED <<n2t, t2n, lastClaim, claimed>>
   /\ UNCHANGED <<flags, phase, nenv, ctxOf, kind, deco, pend, rbusy, ours, cbKeys, ctxKeys, cbs, ran, ranArg,
-                 cbcur, cbstop, outcome, waitOn, apiErr, exitCancelled>>
+                 cbcur, cbstop, outcome, waitOn, apiErr, exitCancelled, stale>>
 
 OpSleep(t) ==
   /\ CanOp(t, "sleep") /\ Count(t)
@@ -261,6 +281,7 @@ OpCreate(t, ch) ==        \* task.create: the child lives in the creator's globa
 ApiError(t, what) ==
   /\ apiErr' = apiErr \cup {what} /\ LeaveBody(t, "raised")
   /\ UNCHANGED <<rq, cbs>>
+PerLookup(f) == f \in MethFn /\ Has("method-cb-per-lookup")
 
 OpCancel(t, v) ==         \* task.cancel(v) / task.cancel(): only enqueued to the reaper
   /\ CanOp(t, "cancel") /\ Count(t) /\ t \in Task /\ v \in Task /\ Live(v)
@@ -270,22 +291,25 @@ OpCancel(t, v) ==         \* task.cancel(v) / task.cancel(): only enqueued to th
      ELSE IF st[v] = "new" /\ Has("cancel-unstarted-typeerror") THEN ApiError(t, "cancel")
      ELSE /\ rq' = Append(rq, v) /\ UNCHANGED <<st, cur, phase, outcome, apiErr, cbs>>
   /\ UNCHANGED <<flags, nenv, ctxOf, kind, deco, pend, rbusy, n2t, t2n, ours, cbKeys, ctxKeys, ran, ranArg,
-                 cbcur, cbstop, waitOn, lastClaim, claimed, kmBad, crossKill, exitCancelled>>
+                 cbcur, cbstop, waitOn, lastClaim, claimed, kmBad, crossKill, exitCancelled, stale>>
 
 CbTarget(t, v) == t \in Task /\ v \in Task /\ Live(v) /\ phase[v] = "body"
 OpAddCb(t, v, f, a) ==    \* one entry per callback function, a later add overwrites the arguments
   /\ CanOp(t, "addcb") /\ Count(t) /\ CbTarget(t, v) /\ a \in 1..MaxArg
   /\ IF kind[v] = "svc" /\ Has("svc-addcb-keyerror") THEN ApiError(t, "addcb")
      ELSE /\ cbs' = [cbs EXCEPT ![v][f] = a] /\ UNCHANGED <<st, cur, phase, outcome, apiErr, rq>>
+  /\ stale' = IF PerLookup(f) /\ cbs[v][f] # 0 /\ ~(kind[v] = "svc" /\ Has("svc-addcb-keyerror"))
+              THEN [stale EXCEPT ![v][f] = Append(@, cbs[v][f])] ELSE stale
   /\ UNCHANGED <<flags, nenv, ctxOf, kind, deco, pend, rbusy, n2t, t2n, ours, cbKeys, ctxKeys, ran, ranArg,
                  cbcur, cbstop, waitOn, lastClaim, claimed, kmBad, crossKill, exitCancelled>>
 
 OpRmCb(t, v, f) ==
   /\ CanOp(t, "rmcb") /\ Count(t) /\ CbTarget(t, v)        \* removing an unregistered function: no effect
   /\ IF kind[v] = "svc" /\ Has("svc-addcb-keyerror") THEN ApiError(t, "rmcb")
-     ELSE /\ cbs' = [cbs EXCEPT ![v][f] = 0] /\ UNCHANGED <<st, cur, phase, outcome, apiErr, rq>>
+     ELSE /\ cbs' = [cbs EXCEPT ![v][f] = IF PerLookup(f) THEN @ ELSE 0]
+          /\ UNCHANGED <<st, cur, phase, outcome, apiErr, rq>>
   /\ UNCHANGED <<flags, nenv, ctxOf, kind, deco, pend, rbusy, n2t, t2n, ours, cbKeys, ctxKeys, ran, ranArg,
-                 cbcur, cbstop, waitOn, lastClaim, claimed, kmBad, crossKill, exitCancelled>>
+                 cbcur, cbstop, waitOn, lastClaim, claimed, kmBad, crossKill, exitCancelled, stale>>
 
 OpWait(t, v) ==           \* task.wait({v}): asyncio.wait always suspends, also for a done task
   /\ CanOp(t, "wait") /\ Count(t) /\ t \in Task /\ v \in Task /\ v # t /\ st[v] # "absent"
@@ -293,19 +317,37 @@ OpWait(t, v) ==           \* task.wait({v}): asyncio.wait always suspends, also 
   /\ UNCHANGED <<flags, phase, nenv, ctxOf, kind, deco, pend, rq, rbusy, n2t, t2n, ours, cbKeys, ctxKeys, cbs,
                  ran, ranArg, cbcur, cbstop, outcome, hist>>
 
+\* a pyscript service called from a run (pyscript.svc(...) / service.call): the call starts a task of its
+\* own in the service's global context c; a blocking call suspends the caller until that run is done -
+\* whatever its outcome - and ties nothing else of the two runs together
+OpCall(t, ch, c, bl) ==
+  /\ CanOp(t, "call") /\ Count(t) /\ t \in Task /\ ch \in Task /\ st[ch] = "absent"
+  /\ kind' = [kind EXCEPT ![ch] = "svc"] /\ ctxOf' = [ctxOf EXCEPT ![ch] = c] /\ cbKeys' = cbKeys \cup {ch}
+  /\ IF bl THEN /\ st' = [st EXCEPT ![ch] = "new", ![t] = "calling"]
+                /\ waitOn' = [waitOn EXCEPT ![t] = ch] /\ cur' = None
+     ELSE /\ st' = [st EXCEPT ![ch] = "new"] /\ UNCHANGED <<waitOn, cur>>
+  /\ UNCHANGED <<flags, phase, nenv, deco, pend, rq, rbusy, n2t, t2n, ours, ctxKeys, cbs, ran, ranArg,
+                 cbcur, cbstop, outcome, hist>>
+
 OpExec(t) ==              \* task.executor(f, ...): no suspension on the loop's side, no registry touched
   /\ CanOp(t, "exec") /\ Count(t)
   /\ UNCHANGED <<flags, cur, st, phase, nenv, ctxOf, kind, deco, pend, rq, rbusy, n2t, t2n, ours, cbKeys,
                  ctxKeys, cbs, ran, ranArg, cbcur, cbstop, outcome, waitOn, hist>>
 
 \* ------------------------------------------------------------------ the reaper task
+\* "call-couples-cancel": cancel() of a task blocked in a blocking service call is passed on to the task it
+\* awaits - the callee (and so on to the innermost one); the blocked task itself is not woken
+RECURSIVE Inner(_)
+Inner(v) == IF st[v] = "calling" /\ ~Done(waitOn[v]) THEN Inner(waitOn[v]) ELSE v
 ReaperTake ==             \* dequeue, cancel(), start awaiting the victim
   /\ cur = None /\ rbusy = None /\ rq # <<>>
-  /\ LET v == Head(rq) IN
+  /\ LET v == Head(rq)
+         w == IF Has("call-couples-cancel") THEN Inner(v) ELSE v
+     IN
      /\ rq' = Tail(rq)
      /\ IF Done(v) THEN UNCHANGED <<st, pend, rbusy>>
-        ELSE /\ pend' = [pend EXCEPT ![v] = TRUE]
-             /\ st' = [st EXCEPT ![v] = IF @ \in {"parked", "cparked", "waiting"} THEN "ready" ELSE @]
+        ELSE /\ pend' = [pend EXCEPT ![w] = TRUE]
+             /\ st' = [st EXCEPT ![w] = IF @ \in {"parked", "cparked", "waiting", "calling"} THEN "ready" ELSE @]
              /\ rbusy' = v
   /\ UNCHANGED <<flags, cur, phase, nops, nenv, ctxOf, kind, deco, n2t, t2n, ours, cbKeys, ctxKeys, cbs, ran,
                  ranArg, cbcur, cbstop, outcome, waitOn, hist>>
@@ -316,12 +358,21 @@ ReaperDone ==             \* the awaited victim is done: back to the queue (head
                  ctxKeys, cbs, ran, ranArg, cbcur, cbstop, outcome, waitOn, hist>>
 
 \* ------------------------------------------------------------------ exit protocol (run_coro's finally)
-PendingCb(t) == {f \in Fn : cbs[t][f] # 0 /\ ran[t][f] = 0}
+\* (stale is empty unless "method-cb-per-lookup": then the earlier entries of a method run first, in order)
+PendingCb(t) == {f \in Fn : cbs[t][f] # 0 /\ ran[t][f] <= Len(stale[t][f])}
 
 CbStart(t, f) ==          \* one done-callback at a time, with the latest arguments
-  /\ cur = t /\ phase[t] = "exit" /\ ~cbstop[t] /\ f \in PendingCb(t)
+  /\ cur = t /\ phase[t] = "exit" /\ ~cbstop[t] /\ f \in PendingCb(t) /\ ran[t][f] = Len(stale[t][f])
   /\ phase' = [phase EXCEPT ![t] = "cb"] /\ cbcur' = [cbcur EXCEPT ![t] = f]
   /\ ran' = [ran EXCEPT ![t][f] = @ + 1] /\ ranArg' = [ranArg EXCEPT ![t][f] = cbs[t][f]]
+  /\ UNCHANGED <<flags, cur, st, nops, nenv, ctxOf, kind, deco, pend, rq, rbusy, n2t, t2n, ours, cbKeys,
+                 ctxKeys, cbs, cbstop, outcome, waitOn, hist>>
+
+StaleArg(t, f) == stale[t][f][ran[t][f] + 1]
+CbStartStale(t, f) ==     \* "method-cb-per-lookup": an earlier entry of a method that was added again
+  /\ cur = t /\ phase[t] = "exit" /\ ~cbstop[t] /\ f \in PendingCb(t) /\ ran[t][f] < Len(stale[t][f])
+  /\ phase' = [phase EXCEPT ![t] = "cb"] /\ cbcur' = [cbcur EXCEPT ![t] = f]
+  /\ ran' = [ran EXCEPT ![t][f] = @ + 1] /\ ranArg' = [ranArg EXCEPT ![t][f] = StaleArg(t, f)]
   /\ UNCHANGED <<flags, cur, st, nops, nenv, ctxOf, kind, deco, pend, rq, rbusy, n2t, t2n, ours, cbKeys,
                  ctxKeys, cbs, cbstop, outcome, waitOn, hist>>
 
@@ -359,8 +410,9 @@ RunStep(t) ==             \* what the task holding the loop can do next
   \/ \E n \in Name, km \in BOOLEAN : OpUnique(t, n, km)
   \/ OpSleep(t) \/ OpRaise(t) \/ OpFinish(t) \/ OpExec(t)
   \/ \E v \in Task : OpCreate(t, v) \/ OpCancel(t, v) \/ OpWait(t, v)
+  \/ \E v \in Task, c \in Ctx, bl \in BOOLEAN : OpCall(t, v, c, bl)
   \/ \E v \in Task, f \in Fn : OpRmCb(t, v, f) \/ \E a \in 1..MaxArg : OpAddCb(t, v, f, a)
-  \/ \E f \in Fn : CbStart(t, f)
+  \/ \E f \in Fn : CbStart(t, f) \/ CbStartStale(t, f)
   \/ CbFinish(t) \/ CbRaise(t) \/ CbSuspend(t) \/ Cleanup(t)
 Env ==
   \/ \E t \in Task, kd \in Kinds, c \in Ctx, d \in Decos \cup {NoDeco} : Spawn(t, kd, c, d)
@@ -368,20 +420,23 @@ Env ==
   \/ \E v \in Task : EnvCancel(v)
 Next == Env \/ (\E t \in All : Resume(t) \/ Wake(t) \/ WaitWake(t) \/ RunStep(t)) \/ ReaperTake \/ ReaperDone
 Spec == Init /\ [][Next]_vars
-Sym == Permutations(Task) \cup Permutations(Name) \cup Permutations(Ctx) \cup Permutations(Fn)
+\* TLC evaluates every constant definition at start-up, also where no SYMMETRY is configured (the trace
+\* specification has a dozen callback functions): only small sets are permuted
+SmallPerms(S) == IF Cardinality(S) <= 5 THEN Permutations(S) ELSE {}
+Sym == SmallPerms(Task) \cup SmallPerms(Name) \cup SmallPerms(Ctx) \cup SmallPerms(Fn)
 
 \* ------------------------------------------------------------------ properties
 Quiescent ==
   /\ cur = None /\ rq = <<>> /\ rbusy = None
-  /\ \A t \in All : /\ st[t] \in {"absent", "parked", "cparked", "waiting", "done"} /\ ~pend[t]
-                    /\ st[t] = "waiting" => ~Done(waitOn[t])
+  /\ \A t \in All : /\ st[t] \in {"absent", "parked", "cparked", "waiting", "calling", "done"} /\ ~pend[t]
+                    /\ st[t] \in {"waiting", "calling"} => ~Done(waitOn[t])
 
 \* nothing can move before a timer expires or the environment acts (what settle() reaches on the virtual
 \* clock): unlike Quiescent the reaper may still be blocked on a victim whose done-callback sleeps
 Settled ==
   /\ cur = None /\ (rbusy = None => rq = <<>>) /\ (rbusy # None => ~Done(rbusy))
-  /\ \A t \in All : /\ st[t] \in {"absent", "parked", "cparked", "waiting", "done"} /\ ~pend[t]
-                    /\ st[t] = "waiting" => ~Done(waitOn[t])
+  /\ \A t \in All : /\ st[t] \in {"absent", "parked", "cparked", "waiting", "calling", "done"} /\ ~pend[t]
+                    /\ st[t] \in {"waiting", "calling"} => ~Done(waitOn[t])
 
 TypeOK ==
   /\ cur \in All \cup {None} /\ (cur # None => st[cur] = "run")
@@ -425,9 +480,13 @@ ApiCallsAccepted == apiErr = {}        \* task.cancel / add_done_callback of a l
 NoRunBlocksAnother ==
   /\ cur = None => \A t \in All : /\ st[t] \in {"new", "ready"} => ENABLED Resume(t)
                                   /\ st[t] = "parked" => ENABLED Wake(t)
-                                  /\ (st[t] = "waiting" /\ Done(waitOn[t])) => ENABLED WaitWake(t)
+                                  /\ (st[t] \in {"waiting", "calling"} /\ Done(waitOn[t])) => ENABLED WaitWake(t)
   /\ cur # None => ENABLED RunStep(cur)
-\* a task that returned from task.wait({v}) sees v done, with its final outcome
+\* a run is terminated by cancellation only if somebody asked for exactly that run to be cancelled (task.cancel,
+\* a task.unique claim, kill_me, the hass side - all of them go through the reaper's queue): a CancelledError is
+\* on its way to no other task than the one the reaper has just taken from its queue - no run takes another with it
+OnlyReapedAreCancelled == \A t \in All : pend[t] => rbusy = t
+\* a task that returned from task.wait({v}) / from a blocking call of v sees v done, with its final outcome
 WaitReflectsOutcome ==
   \A t \in All : (waitOn[t] # None /\ st[t] = "run" /\ phase[t] = "body") =>
                     Done(waitOn[t]) /\ outcome[waitOn[t]] # "none"
@@ -444,8 +503,14 @@ WitnessConds == <<
   \E t \in All : waitOn[t] # None /\ st[t] = "run" /\ phase[t] = "body",     \* 7 task.wait returned
   \E t \in Task : outcome[t] = "refused",                                     \* 8 @task_unique(kill_me) refused a run
   \E t \in Task : st[t] = "new" /\ pend[t],                                  \* 9 cancelled before the first step
-  \E t \in Task : phase[t] = "cb" /\ st[t] = "parked" /\ t2n[t] # {} >>      \* 10 owner suspended in its exit protocol
-NW == 10
+  \E t \in Task : phase[t] = "cb" /\ st[t] = "parked" /\ t2n[t] # {},        \* 10 owner suspended in its exit protocol
+  \E t \in Task : st[t] = "calling" /\ st[waitOn[t]] = "parked",              \* 11 blocked in a service call whose run sleeps
+  \E t \in Task : /\ Done(t) /\ outcome[t] = "cancelled" /\ waitOn[t] # None   \* 12 caller cancelled inside a blocking
+                  /\ kind[waitOn[t]] = "svc" /\ Live(waitOn[t])                 \*    call, the called run lives on
+                  /\ phase[waitOn[t]] = "body",
+  \E t \in Task : /\ st[t] = "run" /\ phase[t] = "body" /\ waitOn[t] # None    \* 13 called run cancelled, the caller
+                  /\ kind[waitOn[t]] = "svc" /\ outcome[waitOn[t]] = "cancelled" >>  \* goes on
+NW == 13
 ASSUME \A i \in 1..NW : TLCSet(100 + i, FALSE)
 Witness == \A i \in 1..NW : WitnessConds[i] => TLCSet(100 + i, TRUE)
 WitnessReport == \A i \in 1..NW : TLCGet(100 + i) \/ PrintT(<<"UNSEEN", i>>)
